@@ -106,7 +106,7 @@ def run(tier, seed):
         "keys/values are hashable with == consistent with hash and are not None",
     ]
     res.assumptions = ["no concurrent mutation; arguments inhabit their annotated types"]
-    standard_flow(res, FILES, TARGETS, concretize, bounded_modules=[("bounded.c18", 120, 900)])
+    standard_flow(res, FILES, TARGETS, concretize, bounded_modules=[("bounded.c18", 900, 1800)])
     if tier == "thorough":
         from checks.lean_lemma import check_card_image
         res.ground.append(check_card_image())
